@@ -190,7 +190,7 @@ func (i *InMemCollector) Start() error {
 		i.Metrics.Register(metric)
 	}
 
-	i.tracesToSend = make(chan sendableTrace, 100_000)
+	i.tracesToSend = make(chan sendableTrace, outgoingQueueCap(i, 100_000))
 	i.done = make(chan struct{})
 	i.reload = make(chan struct{}, 1)
 
